@@ -283,6 +283,11 @@ class AttrParser(BaseParser):
 
         elif issubclass(attr_def, ParametrizedAttribute):
             param_list = attr_def.parse_parameters(self)
+            expected = len(attr_def.get_irdl_definition().parameters)
+            if len(param_list) != expected:
+                self.raise_error(
+                    f"'{attr_name}' expects {expected} parameters, got {len(param_list)}"
+                )
             return attr_def.new(param_list)
         elif issubclass(attr_def, Data):
             _attr_def = cast(type[Data[Any]], attr_def)
